@@ -363,6 +363,8 @@ def run_replay(prop: str, path: str) -> int:
     ensure_deps()
     assert_repo_tree()
     os.environ["BASANA_VERIF"] = "1"
+    import logging
+    logging.getLogger().addHandler(logging.NullHandler())
     mod = load_module(prop)
     data = json.loads(pathlib.Path(path).read_text())
     res = ShardResult()
